@@ -13,6 +13,7 @@ The property, for a compiled table `t`, is `Preserves g A t` below.
 import ForML.Model.Compile
 import ForML.Lemmas.C01Sem
 import ForML.Lemmas.C01Compile
+import ForML.Lemmas.C01Rerun
 
 namespace ForML.Flow
 open Segment
@@ -109,40 +110,35 @@ theorem C01_dataflow_validated (g : Segment) (A : Option Assets) (rank : Uid →
 instruction once**: no assertion of `Table.add` / `Linkage.insert` / `Index.set` / `__iter__` fires, arguments are
 linked by subscriber port, getters by output port, stub getters pruned, loader re-keyed, committer by list position. -/
 theorem C01_compile_denotes (g : Segment) (A : Option Assets) (rank : Uid → Nat) (order : List Uid)
-    (hwf : g.wf rank = true) (hA : g.assetsOK A = true) (hl : g.linked A = true) (hp : order.Perm g.uids) :
+    (hwf : g.wf rank = true) (hA : g.assetsOK A = true) (hp : order.Perm g.uids) :
     ∃ t, compile g A order = .ok t ∧ g.describes A t = true := by
-  obtain ⟨t, hc, hd, hnd⟩ := compile_denotes hwf hA hl hp
+  obtain ⟨t, hc, hd, hnd⟩ := compile_denotes hwf hA hp
   exact ⟨t, hc, C01_denotes_describes hd hnd⟩
 
-/-- **C01 at full strength**: every well-formed segment, every compatible accessor, every visit order. -/
-def C01_dataflow_full : Prop :=
-  ∀ (g : Segment) (A : Option Assets) (rank : Uid → Nat) (order : List Uid),
-    g.wf rank = true → g.assetsOK A = true → order.Perm g.uids →
-      ∃ t, compile g A order = .ok t ∧ Preserves g A t
-
-/-- **C01 for every linked segment** (all topologies with at least one subscription or one preset state; all visit
-orders; all persistent lists; unbounded): compiling succeeds and executing the compiled table yields at every worker
-exactly the value of direct graph evaluation, every instruction runs exactly once, functors correspond one-to-one to
-workers, and the new generation is committed with the trainers' states at their groups' list positions. -/
-theorem C01_dataflow_partial (g : Segment) (A : Option Assets) (rank : Uid → Nat) (order : List Uid)
-    (hwf : g.wf rank = true) (hA : g.assetsOK A = true) (hl : g.linked A = true) (hp : order.Perm g.uids) :
+/-- **C01 at full strength** (all segment topologies, all visit orders, all persistent lists; unbounded): compiling
+succeeds and executing the compiled table yields at every worker exactly the value of direct graph evaluation, every
+instruction runs exactly once, functors correspond one-to-one to workers, and the new generation is committed with the
+trainers' states at their groups' list positions. (Model of the code with fix C01-F1: `Linkage.leaves` accepts an empty
+linkage.) -/
+theorem C01_dataflow (g : Segment) (A : Option Assets) (rank : Uid → Nat) (order : List Uid)
+    (hwf : g.wf rank = true) (hA : g.assetsOK A = true) (hp : order.Perm g.uids) :
     ∃ t, compile g A order = .ok t ∧ Preserves g A t := by
-  obtain ⟨t, hc, hd, hnd⟩ := compile_denotes hwf hA hl hp
+  obtain ⟨t, hc, hd, hnd⟩ := compile_denotes hwf hA hp
   exact ⟨t, hc, C01_denoted_table_preserves g A rank t hwf hA hd hnd⟩
 
 /-- … in particular for the order in which `Traversal.each` feeds the compiler -/
 theorem C01_dataflow_traversal (g : Segment) (A : Option Assets) (rank : Uid → Nat)
-    (hwf : g.wf rank = true) (hA : g.assetsOK A = true) (hl : g.linked A = true) (hp : g.visitOrder.Perm g.uids) :
+    (hwf : g.wf rank = true) (hA : g.assetsOK A = true) (hp : g.visitOrder.Perm g.uids) :
     ∃ t, compile g A g.visitOrder = .ok t ∧ Preserves g A t :=
-  C01_dataflow_partial g A rank g.visitOrder hwf hA hl hp
+  C01_dataflow g A rank g.visitOrder hwf hA hp
 
 /-- the visit order is irrelevant: two traversals yield the same symbols -/
 theorem C01_order_irrelevant (g : Segment) (A : Option Assets) (rank : Uid → Nat) (o₁ o₂ : List Uid) (t₁ t₂ : Table)
-    (hwf : g.wf rank = true) (hA : g.assetsOK A = true) (hl : g.linked A = true)
+    (hwf : g.wf rank = true) (hA : g.assetsOK A = true)
     (hp₁ : o₁.Perm g.uids) (hp₂ : o₂.Perm g.uids) (h₁ : compile g A o₁ = .ok t₁) (h₂ : compile g A o₂ = .ok t₂) :
     t₁.Perm t₂ := by
-  obtain ⟨t₁', hc₁, hd₁, hn₁⟩ := compile_denotes hwf hA hl hp₁
-  obtain ⟨t₂', hc₂, hd₂, hn₂⟩ := compile_denotes hwf hA hl hp₂
+  obtain ⟨t₁', hc₁, hd₁, hn₁⟩ := compile_denotes hwf hA hp₁
+  obtain ⟨t₂', hc₂, hd₂, hn₂⟩ := compile_denotes hwf hA hp₂
   rw [h₁] at hc₁; rw [h₂] at hc₂
   cases hc₁; cases hc₂
   rw [List.perm_ext_iff_of_nodup (nodup_of_nodup_map _ hn₁) (nodup_of_nodup_map _ hn₂)]
@@ -152,13 +148,13 @@ theorem C01_order_irrelevant (g : Segment) (A : Option Assets) (rank : Uid → N
 /-- positions: the committer's `i`-th argument is the dumper of the trainer of the `i`-th persistent group; the
 loader of the `i`-th persistent group yields the `i`-th state of the previous generation -/
 theorem C01_positions (g : Segment) (As : Assets) (rank : Uid → Nat) (order : List Uid) (t : Table)
-    (hwf : g.wf rank = true) (hA : g.assetsOK (some As) = true) (hl : g.linked (some As) = true)
+    (hwf : g.wf rank = true) (hA : g.assetsOK (some As) = true)
     (hp : order.Perm g.uids) (hc : compile g (some As) order = .ok t) :
     (∀ (s : Symbol), s ∈ t → s.id = Key.committer → ∀ (i : Nat) (γ : Gid), As.persistent[i]? = some γ →
         ∃ tw, g.trainerOf γ = some tw ∧ s.args[i]? = some (Key.dumper tw.uid)) ∧
     (∀ (s : Symbol), s ∈ t → ∀ (γ : Gid), s.id = Key.loader γ → ∀ (i : Nat), As.persistent[i]? = some γ →
         (run (some As) t).get (.loader γ) = some (As.prev.getD i .none)) := by
-  obtain ⟨t', hc', hd, hnd⟩ := compile_denotes hwf hA hl hp
+  obtain ⟨t', hc', hd, hnd⟩ := compile_denotes hwf hA hp
   rw [hc] at hc'; cases hc'
   have h := wf_WF hwf
   have hA' := assetsOK_AssetsOK hA
@@ -194,17 +190,29 @@ theorem C01_positions (g : Segment) (As : Assets) (rank : Uid → Nat) (order : 
     rw [hv, hd.value_loader h rfl ((hd _).mp hs)]
     simp only [Assets.load, Assets.offset, indexOf_of_get (hA'.nodup As rfl) hγ]
 
-/-- the single stateless worker without any subscription -/
+/-- **Re-execution**: instructions carry no state across executions. The `j`-th execution of a compiled table against
+the evolving store (`asset.State.commit` replaces the generation: execution `j` sees what execution `j-1` committed)
+*is* the execution of a fresh compilation against the store of that moment, and preserves the dataflow of the
+segment with that store: the previous states preset are those of the latest committed generation, every time. -/
+theorem C01_rerun (g : Segment) (A : Option Assets) (rank : Uid → Nat) (order : List Uid) (t : Table)
+    (hwf : g.wf rank = true) (hA : g.assetsOK A = true) (hp : order.Perm g.uids)
+    (hc : compile g A order = .ok t) (j : Nat) :
+    (runSeq A t (j + 1))[j]? = some (run (storeSeq A t j) t) ∧
+    compile g (storeSeq A t j) order = .ok t ∧ Preserves g (storeSeq A t j) t := by
+  have hs := sameP_storeSeq A t j
+  have hc' : compile g (storeSeq A t j) order = .ok t := by rw [← compile_congr g hs order]; exact hc
+  refine ⟨by simp [runSeq], hc', ?_⟩
+  obtain ⟨t', hct, hpres⟩ := C01_dataflow g (storeSeq A t j) rank order hwf
+    (by rw [← assetsOK_congr g hs]; exact hA) hp
+  rw [hc'] at hct; cases hct
+  exact hpres
+
+/-- the single stateless worker without any subscription (regression witness of fix C01-F1: the unrepaired
+`Linkage.leaves` asserted `'Not acyclic'` on its empty linkage) -/
 def loneWorker : Segment := ⟨[⟨0, 0, 0, false, 1, 1⟩], [], 0, 0, []⟩
 
-/-- `Linkage.leaves` asserts a non-empty set of leaves: a segment consisting of one unlinked worker is a valid
-segment the compiler refuses (`AssertionError: Not acyclic`), finding C01-F1 -/
-theorem C01_dataflow_counterexample : ¬ C01_dataflow_full := by
-  intro h
-  obtain ⟨t, ht, _⟩ := h loneWorker none (fun _ => 0) [0] (by decide) (by decide) (List.Perm.refl _)
-  have : compile loneWorker none [0] = .error .assertion := rfl
-  rw [this] at ht
-  cases ht
+example : loneWorker.wf (fun _ => 0) = true := by decide
+example : compile loneWorker none [0] = .ok [⟨.uid 0, .functor 0 .apply [], []⟩] := rfl
 
 /-! ### non-vacuity -/
 
@@ -226,12 +234,10 @@ def demoAssets : Option Assets := some ⟨[2], [.stored 0]⟩
 
 example : demo.wf demoRank = true := by decide +kernel
 example : demo.assetsOK demoAssets = true := by decide +kernel
-example : demo.linked demoAssets = true := by decide +kernel
 example : demo.visitOrder.Perm demo.uids := by decide +kernel
 /-- the theorem instantiated: the DESIGN shape compiles and preserves its dataflow -/
 example : ∃ t, compile demo demoAssets demo.visitOrder = .ok t ∧ Preserves demo demoAssets t :=
   C01_dataflow_traversal demo demoAssets demoRank (by decide +kernel) (by decide +kernel) (by decide +kernel)
-    (by decide +kernel)
 example : (match compile demo demoAssets demo.visitOrder with
     | .ok t => demo.describes demoAssets t
     | .error _ => false) = true := by decide +kernel
